@@ -56,22 +56,32 @@ class Chooser:
         return k
 
 
-def run_session(W, lb, batches, chooser, eager=True, default_comm=False, map_fn=None, workers_call_map=False):
-    """One pool, the given batches [(g, tasks)] mapped one after the other on it, then close().
-    Returns dict(rets, trace, error, deadlock).  map_fn(pool, g, tasks) overrides how the master maps."""
+def run_session(W, lb, batches, chooser, eager=True, default_comm=False, workers_call_map=False, master_body=None):
+    """One pool; the master maps the given batches [(g, tasks)] one after the other on it (or runs
+    master_body(pool) which may call pool.map any number of times), then close().
+    Every pool.map call of the master is recorded in out["calls"] as (function, tasks, returned) and
+    marked in the trace by ("R",).  Returns dict(rets, calls, trace, error, deadlock, cut)."""
     mp = mpipool_module()
     world = fake.World(W + 1, chooser, eager_sends=eager)
     rets = []
+    calls = []
 
     def master(comm):
         pool = mp.MPIPool(loadbalance=lb) if default_comm else mp.MPIPool(comm=comm, loadbalance=lb)
-        for (g, tasks) in batches:
-            if map_fn is not None:
-                r = map_fn(pool, g, tasks)
-            else:
-                r = pool.map(FNS[g], list(tasks))
+        orig = pool.map
+
+        def logged_map(function, tasks, callback=None):
+            r = orig(function, tasks, callback)
             world.trace.append(("R",))
-            rets.append(r)
+            calls.append((function, list(tasks), r))
+            return r
+
+        pool.map = logged_map
+        if master_body is not None:
+            master_body(pool)
+        else:
+            for (g, tasks) in batches:
+                rets.append(pool.map(FNS[g], list(tasks)))
         try:
             chooser.frozen = True
         except AttributeError:
@@ -85,7 +95,7 @@ def run_session(W, lb, batches, chooser, eager=True, default_comm=False, map_fn=
         else:
             pool.wait()
 
-    out = {"rets": rets, "trace": world.trace, "error": None, "deadlock": None, "cut": False}
+    out = {"rets": rets, "calls": calls, "trace": world.trace, "error": None, "deadlock": None, "cut": False}
     try:
         world.run([master] + [worker] * W)
     except fake.Deadlock as d:
@@ -133,16 +143,37 @@ def res_lit(r):
     return "(Some %s)" % ("(%d)" % r if r < 0 else "%d" % r)
 
 
-def session_lit(W, lb, batches, out):
-    """Coq literal `Sess W lb [Bt g tasks evs ret; ...]` of one executed session"""
-    per = split_trace(out["trace"], len(batches))
+def session_lit(W, lb, batches, out, rets=None):
+    """Coq literal `Sess W lb [Bt g tasks evs ret; ...]` of one executed session.
+    batches = [(g, integer tasks)], rets = what each map returned (default out["rets"])."""
+    per = split_trace(out["trace"], max(1, len(batches)))
+    rets = out["rets"] if rets is None else rets
     bl = []
-    for (g, tasks), evs, ret in zip(batches, per, out["rets"]):
+    for (g, tasks), evs, ret in zip(batches, per, rets):
         bl.append("Bt %d [%s] [%s] [%s]" % (
             g, "; ".join("(%d)" % t if t < 0 else "%d" % t for t in tasks),
             "; ".join(ev_lit(e) for e in evs),
             "; ".join(res_lit(r) for r in (ret if ret is not None else []))))
     return "Sess %d %s [%s]" % (W, "true" if lb else "false", "; ".join(bl))
+
+
+def label_calls(calls, key):
+    """For sessions whose payloads are objects: number the functions 1,2,.. in order of first use, label the
+    tasks of each call 0..n-1 and express every returned item as task_fn(g, j) where j is the position of
+    the task it was computed from (matched by key); an unmatched or misplaced item shows up as a wrong label.
+    Returns (batches, rets) for session_lit."""
+    fids = {}
+    batches, rets = [], []
+    for (fn, tasks, ret) in calls:
+        g = fids.setdefault(id(fn), len(fids) + 1)
+        keys = [key(t) for t in tasks]
+        batches.append((g, list(range(len(tasks)))))
+        lab = []
+        for r in (ret or []):
+            k = key(r) if r is not None else None
+            lab.append(task_fn(g, keys.index(k)) if k in keys else None)
+        rets.append(lab)
+    return batches, rets
 
 
 def enumerate_schedules(W, lb, batches, eager=True, limit=None, on_run=None):
